@@ -515,3 +515,32 @@ def run(m):
     v = r["violations"]
     return {"failing": bool(v), "witness": v[0]["witness"] if v else "messages", "call": v[0]["source"] if v else "message sweep", "result": v[0]["got"] if v else "ok"}
 '''
+
+
+# ---- RenderContext.resolve (summarised by a fresh value in the contracts above): the scope's
+# ---- binding of the name, the environment's undefined for a missing name -- never KeyError
+
+@contract(CTX + ".resolve", prop="C26", name="RenderContext.resolve[the binding in scope, or an undefined; a missing name never raises]")
+def ctx_resolve(c):
+    env = mk_env(c, undefined=VClass("liquid.undefined", "Undefined"))
+    ctx = mk_ctx(c, env)
+    name = c.str("name")
+    bound = c.bool("name_is_bound")
+    val = c.any("bound_value")
+
+    def getitem(eng, st, a, k):
+        outs = []
+        for s, b in eng.branch(st, bound.t):
+            outs.append((s, val) if b else eng.raised(s, "KeyError", "name"))
+        return outs
+    c.summary("liquid.utils.chain_map:ReadOnlyChainMap.__getitem__", getitem)   # C14: KeyError iff unbound in every map
+    c.call(name, self_val=ctx)
+    c.raises()
+
+    def post(r):
+        v = r.value
+        if isinstance(v, VRef) and isinstance(r.st.deref(v), HObj) and r.st.deref(v).cls[1] == "Undefined":
+            return z3.Not(bound.t)
+        return z3.And(bound.t, box(v) == val.t)
+    c.ensures("bound-name-gives-its-binding-and-a-missing-name-gives-the-environments-undefined", post)
+    c.replay("code", code=REPLAY_TAG_PERCENT)
